@@ -9,6 +9,7 @@ import StepModel.P21.FloatFifteen
 import StepModel.P21.FloatDigits
 import StepModel.P21.AggrLemmas
 import StepModel.P21.RtsLemmas
+import StepModel.P21.RawAggrLemmas
 import StepModel.Generated.P21RWGen
 import StepModel.Generated.P21LexGen
 /-!
@@ -3430,6 +3431,70 @@ theorem C09_aggr_sentinel_element_witness :
       | .ok r => r.sev == .warning && (match r.val with | .unset => true | _ => false)
       | _ => false) = true := by
   decide +kernel
+
+/-! ### nested aggregates: the raw-text semantics (proof-only stretch)
+
+The elements of an aggregate of aggregates are not read by any literal scanner: `STEPaggregate::ReadValue` hands each of them to
+`SCLundefined::STEPread` (`undefRead` / `pushPastAggr` of C01's reader model, element type `.generic`), which keeps the *text* of
+the element.  Accept direction: a balanced group `( u )` — `u` any `Raw` text: plain bytes (digits, signs, `.`, `,`, `#`, `$`,
+`*`, letters, blanks, `/` …) and nested balanced groups to any depth, no string literal and no `;` — is stored **verbatim** as
+`.undef "(u)"`, nothing is reported, and the stream rests at the delimiter. -/
+
+/-- `SCLundefined::STEPread` on a balanced group: the text, verbatim -/
+theorem C09_nested_raw_text_verbatim (lex : LexCfg) (stop : Bool) (u : List Byte) (hu : Raw u) (l0 rest : List Byte) (d : Byte)
+    (sk : Bool) (hd : d = 44 ∨ d = 41) :
+    undefRead lex stop (G l0 (40 :: (u ++ 41 :: d :: rest)) sk) =
+      .ok (40 :: (u ++ [41]), G (41 :: (u.reverse ++ 40 :: l0)) (d :: rest) sk, P21.Sev.null) :=
+  undefRead_raw lex stop u hu l0 rest d sk hd
+
+/-- an element of an aggregate of aggregates (any layout of blanks and comments in front of it, the delimiter directly behind
+    it — whatever else stood there would become part of the stored text) -/
+theorem C09_aggr_elem_nested {F} (env : Env F) (hagg : env.cfg.aggrSkipsComments = true) (u before : List Byte) (hu : Raw u)
+    (hb : Seps before) :
+    ElemReads env .generic id ⟨40 :: (u ++ [41]), before, [], (.atom (.undef (40 :: (u ++ [41]))) : Elem F)⟩ :=
+  ElemReads.generic env hagg u before hu hb
+
+/-- **aggregate of aggregates, accept**: `( (u₁) , … , (uₙ) )`, every `uᵢ` a `Raw` text, any layout in front of every group:
+    read with no error to the list of the groups' texts, the stream behind the closing parenthesis -/
+theorem C09_aggr_nested_accept {F} (env : Env F) (hagg : env.cfg.aggrSkipsComments = true) (es : List (ElemQ F)) (hne : es ≠ [])
+    (hes : ∀ e ∈ es, ∃ u, Raw u ∧ e.tok = 40 :: (u ++ [41]) ∧ Seps e.before ∧ e.after = [] ∧ e.val = .atom (.undef e.tok))
+    (l : List Byte) (sk : Bool) (rest : List Byte) :
+    aggrRead env .generic (G l (40 :: (renderQ es ++ rest)) sk) =
+      .ok (.null, some (es.map (·.val)), G ((40 :: renderQ es).reverse ++ l) rest sk) := by
+  have := C09_aggr_accept env hagg .generic id (fun _ => rfl) es hne (by
+    intro e he
+    obtain ⟨u, hu, h1, h2, h3, h4⟩ := hes e he
+    obtain ⟨tok, before, after, val⟩ := e
+    simp only at h1 h2 h3 h4
+    subst h1 h3 h4
+    exact ElemReads.generic env hagg u before hu h2) l sk rest
+  simpa using this
+
+/-- `((1,2),(3,(4)))` under the regenerated configuration (an instance of the theorem): stored as the two texts `(1,2)` and
+    `(3,(4))`, severity NULL, the stream at the `,` that follows -/
+theorem C09_aggr_nested_witness :
+    aggrRead sampleEnv .generic (G [] [40, 40, 49, 44, 50, 41, 44, 40, 51, 44, 40, 52, 41, 41, 41, 44] true) =
+      .ok (.null, some [.atom (.undef [40, 49, 44, 50, 41]), .atom (.undef [40, 51, 44, 40, 52, 41, 41])],
+        G [41, 41, 41, 52, 40, 44, 51, 40, 44, 41, 50, 44, 49, 40, 40] [44] true) := by
+  have p : ∀ c : Byte, c ≠ 40 → c ≠ 41 → c ≠ 39 → c ≠ 59 → plainByte c := fun _ a b c d => ⟨a, b, c, d⟩
+  have hR1 : Raw [49, 44, 50] :=
+    .plain 49 _ (p 49 (by decide) (by decide) (by decide) (by decide))
+      (.plain 44 _ (p 44 (by decide) (by decide) (by decide) (by decide))
+        (.plain 50 _ (p 50 (by decide) (by decide) (by decide) (by decide)) .nil))
+  have hR2 : Raw [51, 44, 40, 52, 41] :=
+    .plain 51 _ (p 51 (by decide) (by decide) (by decide) (by decide))
+      (.plain 44 _ (p 44 (by decide) (by decide) (by decide) (by decide))
+        (.nest [52] [] (.plain 52 _ (p 52 (by decide) (by decide) (by decide) (by decide)) .nil) .nil))
+  have h := C09_aggr_nested_accept sampleEnv (by decide)
+    [⟨[40, 49, 44, 50, 41], [], [], .atom (.undef [40, 49, 44, 50, 41])⟩,
+     ⟨[40, 51, 44, 40, 52, 41, 41], [], [], .atom (.undef [40, 51, 44, 40, 52, 41, 41])⟩] (by simp)
+    (by
+      intro e he
+      simp only [List.mem_cons, List.mem_nil_iff, or_false] at he
+      rcases he with rfl | rfl
+      · exact ⟨[49, 44, 50], hR1, rfl, Seps.blanks [] (by simp), rfl, rfl⟩
+      · exact ⟨[51, 44, 40, 52, 41], hR2, rfl, Seps.blanks [] (by simp), rfl, rfl⟩) [] true [44]
+  simpa [renderQ] using h
 
 end Aggregates
 
